@@ -356,7 +356,37 @@ def standin(tier, seed):
             if not getattr(r, "shutdown_done", False) or r.open_connections:
                 failures.append({"what": "[%s] close_all_connections did not complete (open connections: %d)" % (name, r.open_connections), "history": {"bytes_received": cut}})
             nontriv.add(("shutdown", name, cut))
+    # a request that was read completely while the application has not answered yet (and never registered a close callback on the connection): the client going away,
+    # or the server closing its connections, leaves the message with its one finish (no second notification), the connection is dropped and the shutdown completes
+    from pyvc.standin.fakestream import EOF as _EOF
+
+    async def gone_then_shutdown(v, stream, server, res):
+        import asyncio
+        if res.how == "client-disconnects-then-shutdown":
+            stream.feed(_EOF)
+            stream.pump()
+            await v.settle()
+        t = asyncio.ensure_future(server.close_all_connections())
+        await v.settle()
+        await v.settle()
+        res.shutdown_done = t.done()
+    for name in shapes:
+        wire, full = shapes[name]
+        for how in ("client-disconnects-then-shutdown", "shutdown-while-the-response-is-pending"):
+            def mk(res, how=how):
+                res.how = how
+                return S.RecordingDelegate(res, respond=None)
+            r = S.run_server([wire], make_app=mk, eof=False, after=gone_then_shutdown)
+            evals += 1
+            evs = [ev for (no, ev, p) in r.events if no == 1]
+            nontriv.add(("pending-response", name, how))
+            if not getattr(r, "shutdown_done", False) or r.open_connections:
+                failures.append({"what": "[%s] %s: close_all_connections completed: %s, connections still registered: %d" % (name, how, getattr(r, "shutdown_done", None), r.open_connections),
+                                 "history": {"request": "read completely", "response": "never written", "close callback": "none registered"}})
+            elif evs.count("finish") + evs.count("close") != 1:
+                failures.append({"what": "[%s] %s: the message delegate saw %r (exactly one of finish / close per message)" % (name, how, evs),
+                                 "history": {"request": "read completely", "response": "never written"}})
     return {"evaluations": evals, "distinct_nontrivial": len(nontriv), "failures": failures[:3], "samples": samples, "exhaustive": True,
             "rule": "3 request shapes (no body / Content-Length / chunked) x response at headers|finish x client disconnect after every byte offset (1 or 2 segments) "
-                    "through the real server with a recording message delegate; plus body timeout and close_all_connections at 3 points",
+                    "through the real server with a recording message delegate; plus body timeout, close_all_connections at 3 points, and a fully read request whose response is still pending when the client goes away / the server shuts down",
             "wall_s": round(time.time() - t0, 2)}
